@@ -78,3 +78,31 @@ Proof. intros L ops l k S. exact (project_keeps_totals ops l k S). Qed.
 (* non-vacuity: a concrete one-directional device *)
 Example C17_example_one_directional : one_directional (std_ops (A:=R)) (Build_leafdev 2 [(0, 2); (1, 3)] [] KDev).
 Proof. exact example_one_directional. Qed.
+
+(* ---- the adaptor as regenerated from device_kit/mfdeviceset.py on every run (Gen/MFDeviceSet.v, translator/mfdeviceset_tx.py: cost /
+        deriv / hess / project over an ABSTRACT wrapped device, self.shape being the inherited DeviceSet.shape over the conduit
+        devices; the constructor's ValueError guards and the bounds it gives every conduit) IS the adaptor model (mf_cost, mf_deriv,
+        mf_project, conduit_bounds) the theorems above are about.  Any carrier, any wrapped device, any number of conduits. ---- *)
+From DK.Model Require Import SetOps.
+From DK.Gen Require Import DeviceSet MFDeviceSet.
+From DK.Proofs Require Import GenMFDeviceSet.
+Theorem C17_source_adaptor_cost_deriv_hess_project : forall {A} `{Num A} {L} (ops : leafops A L) i l flows s p,
+  let d := MF i l flows in let n := l_n ops l in
+  MFDeviceSet_cost (wdev_of ops l) (conduits_of ops l flows) n s p = gcost ops d (shaped ops d s) (prices ops d p) /\
+  MFDeviceSet_deriv (wdev_of ops l) (conduits_of ops l flows) n s p = gderiv ops d (shaped ops d s) (prices ops d p) /\
+  MFDeviceSet_hess (wdev_of ops l) (conduits_of ops l flows) n s p = ghess ops d (shaped ops d s) /\
+  MFDeviceSet_project (wdev_of ops l) (conduits_of ops l flows) n s = gproject ops d (shaped ops d s).
+Proof.
+  intros A H L ops i l flows s p. repeat split;
+    [apply gen_mf_cost | apply gen_mf_deriv | apply gen_mf_hess | apply gen_mf_project].
+Qed.
+Theorem C17_source_adaptor_shape : forall {A} `{Num A} {L} (ops : leafops A L) l (flows : list string),
+  DeviceSet_shape (conduits_of ops l flows) (l_n ops l) = (List.length flows, l_n ops l).
+Proof. intros A H L ops l flows. apply conduits_shape. Qed.
+Theorem C17_source_conduit_bounds : forall {A} `{Num A} (b : list (A * A)),
+  MFDeviceSet_conduit_bounds (map fst b) (map snd b) = conduit_bounds b.
+Proof. intros A H b. apply gen_mf_conduit_bounds. Qed.
+Theorem C17_source_constructor_rejects : forall {A} `{Num A} (k : nat) (b : list (A * A)),
+  MFDeviceSet_init_rejects k (map fst b) (map snd b) =
+  (Nat.eqb k 0 || (existsb (fun lh => nltb (fst lh) n0) b && existsb (fun lh => nltb n0 (snd lh)) b)).
+Proof. intros A H k b. unfold MFDeviceSet_init_rejects. rewrite existsb_map_fst. f_equal. f_equal. induction b as [|x b IH]; cbn; [reflexivity | now rewrite IH]. Qed.
